@@ -116,7 +116,43 @@ def tables(repo):
             c = bases[0] if bases else None
         anc.append((cname, chain))
     t["gateAncestors"] = anc
+    _c04_tables(repo, t)
     return t
+
+
+def _c04_tables(repo, t):
+    """C04: step lists of the shipped optimizer profiles, DISABLE_OR"""
+    bo = _parse(repo, "qlasskit/boolopt/bool_optimizer.py")
+
+    def steps(name):
+        v = _list_assign(bo, name)
+        if not (isinstance(v, ast.Call) and isinstance(v.func, ast.Name) and v.func.id == "BoolOptimizerProfile"
+                and len(v.args) == 1 and isinstance(v.args[0], ast.List)):
+            raise ValueError(f"{name} is not BoolOptimizerProfile([...])")
+        out = []
+        for e in v.args[0].elts:
+            if isinstance(e, ast.Name):
+                out.append(e.id)
+            elif isinstance(e, ast.Call) and isinstance(e.func, ast.Name) and not e.args and not e.keywords:
+                out.append(e.func.id)
+            else:
+                raise ValueError(f"unexpected step in {name}: {ast.dump(e)}")
+        return out
+
+    t["defaultOptimizerSteps"] = steps("defaultOptimizer")
+    t["fastOptimizerSteps"] = steps("fastOptimizer")
+    et = _parse(repo, "qlasskit/boolopt/exp_transformers.py")
+    d = _list_assign(et, "DISABLE_OR")
+    if not (isinstance(d, ast.Constant) and isinstance(d.value, bool)):
+        raise ValueError("DISABLE_OR is not a bool literal")
+    t["disableOr"] = d.value
+    ex = t.setdefault("_extra", [])
+    ex.append("/-- step list of `defaultOptimizer` (bool_optimizer.py), in source order -/\n"
+              "def defaultOptimizerSteps : List String := " + lean_list(lean_str(x) for x in t["defaultOptimizerSteps"]))
+    ex.append("/-- step list of `fastOptimizer` -/\n"
+              "def fastOptimizerSteps : List String := " + lean_list(lean_str(x) for x in t["fastOptimizerSteps"]))
+    ex.append("/-- `DISABLE_OR` of exp_transformers.py -/\n"
+              "def disableOr : Bool := " + ("true" if t["disableOr"] else "false"))
 
 
 def render(t):
